@@ -14,7 +14,7 @@ INV = {
     'C07': ['Inv_C07_CreateJustified', 'Inv_C07_AtMostOnePerTemplateEpoch', 'Inv_C07_RevisionsUnique', 'Inv_C07_RevisionIncreasing', 'Inv_C07_NoReuse', 'Inv_C07_ProgressOnMismatch', 'Conf_DeployPlan'],
     'C08': ['Inv_C08_ArchiveOnlyPaused', 'Inv_C08_NewestNeverArchived', 'Inv_C08_ArchiveCondition', 'Inv_C08_PruneOldestOnly', 'Inv_C08_SharedObjectNotDeleted', 'Inv_C05_DeletedWasControlled', 'Conf_DeployPlan'],
     'C09': ['Inv_C09_NoWritesWhilePaused', 'Inv_C09_StillReports', 'Inv_C09_PausedPassCompletes', 'Inv_C09_DeploymentPausedNoRevisionChange', 'Inv_C09_ReleaseExactlyMarked', 'Inv_C09_Propagation', 'Inv_C09_PackagePaused', 'Inv_C09_PhasePauseFollows', 'Inv_C09_PhasePauseBehindFailure', 'Conf_DeployPlan', 'Conf_RemotePhase'],
-    'C10': ['Inv_C10_Quiescent', 'Inv_C10_SameOutcome', 'Inv_C10_DigestMatchesStore', 'Inv_C19_NoPanic'],
+    'C10': ['Inv_C10_Quiescent', 'Inv_C10_SameOutcome', 'Inv_C10_DigestMatchesStore', 'Inv_C10_RetryArmed', 'Inv_C19_NoPanic'],
     'C11': ['Inv_C11_PhaseAllOrNothing', 'Inv_C11_Scope', 'Inv_C11_Reported', 'Inv_C11_NoWriteIfViolating', 'Inv_C11_ViolationReported'],
     'C14': ['Inv_C14_SameAsInline', 'Inv_C14_GC', 'Inv_C14_GCInstant', 'Inv_C14_SliceContent', 'Conf_DeployPlan'],
     'C15': ['Inv_C15_SameAsLocal', 'Inv_C15_PhaseObjectFaithful', 'Inv_C15_PhaseObjectLifetime', 'Inv_C15_PausePropagation', 'Inv_C15_RemotePhaseRefsCurrent', 'Inv_C09_PhasePauseFollows', 'Inv_C09_PhasePauseBehindFailure', 'Conf_RemotePhase'],
@@ -435,7 +435,11 @@ CHECKS = {
             dict(name='fault-sweep', shards=8 if tier == 'quick' else 14,
                  driver=['fault-sweep', '-n', '60' if tier == 'quick' else '0', '-seed', str(seed)]),
             dict(name='fault-pairs', shards=4 if tier == 'quick' else 14,
-                 driver=['fault-sweep', '-mode', 'pairs', '-n', '20' if tier == 'quick' else '400', '-seed', str(seed)])]),
+                 driver=['fault-sweep', '-mode', 'pairs', '-n', '20' if tier == 'quick' else '400', '-seed', str(seed)]),
+            # states no event leads out of (refused adoption, preflight error) persisting over several passes: is the retry armed every time?
+            dict(name='stuck-retry', shards=4 if tier == 'quick' else 14, invariants=['Inv_C10_RetryArmed', 'Inv_C11_ViolationReported', 'Inv_C19_NoPanic'],
+                 driver=['random', '-scenarios', 'collision,handover-2rev,handover-cpnone,handover-ifnoctrl', '-profile', 'collision', '-mode', 'atomic',
+                         '-n', '80' if tier == 'quick' else '3000', '-steps', '60', '-seed', str(seed)])]),
     'C12': dict(level='model_checking', invariants=INV['C12'], module='TraceDynCache',
                 assumptions=['scripted informer map and stub informers replace client-go informers; the Cache, its locking, reference bookkeeping and cache source are the real code',
                              'concurrent callers: only data races (go -race is not used in the quick tier) and the quiescent end state are checked, intra-lock interleavings are reached by chance'],
